@@ -210,6 +210,8 @@ pub struct Session {
     cs: HashMap<String, Box<dyn CtxS>>,
     cr: HashMap<String, Box<dyn CtxR>>,
     scratch: Vec<u8>,
+    /// heap blocks of contexts that residue_scan has dropped in this session (the peer of a context holds the same secrets)
+    dropped_blocks: Vec<(usize, usize)>,
 }
 
 fn state_s(f: &mut Fields, c: &dyn CtxS) {
@@ -255,6 +257,7 @@ impl Session {
             cs: HashMap::new(),
             cr: HashMap::new(),
             scratch: Vec::new(),
+            dropped_blocks: Vec::new(),
         }
     }
 
@@ -991,9 +994,11 @@ impl Session {
                 }
                 let mut after = crate::residue::scan(&masked);
                 let mut own = 0usize;
+                self.dropped_blocks.push((own_p, own_n));
+                let blocks = self.dropped_blocks.clone();
                 for h in after.iter_mut() {
                     let n0 = h.len();
-                    h.retain(|(_, a)| !(*a >= own_p && *a < own_p + own_n));
+                    h.retain(|(_, a)| !blocks.iter().any(|(p, n)| *a >= *p && *a < *p + *n));
                     own += n0 - h.len();
                 }
                 f.kv("own_block", own);
